@@ -168,6 +168,29 @@ def lexLiteral (d : Dialect) (s : Str) : Option (Str × Str) :=
   | .mysql => lexMySQL s
   | _ => lexQuoted '\'' s
 
+/-- value of a hexadecimal digit (SQL accepts both cases) -/
+def unhexDigit (c : Char) : Option Nat :=
+  if '0' ≤ c ∧ c ≤ '9' then some (c.toNat - '0'.toNat)
+  else if 'a' ≤ c ∧ c ≤ 'f' then some (c.toNat - 'a'.toNat + 10)
+  else if 'A' ≤ c ∧ c ≤ 'F' then some (c.toNat - 'A'.toNat + 10)
+  else none
+
+def unhexlify : Str → Option (List Nat)
+  | [] => some []
+  | [_] => none
+  | a :: b :: r =>
+    match unhexDigit a, unhexDigit b, unhexlify r with
+    | some x, some y, some l => some ((16 * x + y) :: l)
+    | _, _, _ => none
+
+/-- blob literal `X'hex'` (standard SQL; SQLite, MySQL) -/
+def lexBlob : Str → Option (List Nat × Str)
+  | 'X' :: r =>
+    match lexQuoted '\'' r with
+    | some (h, rest) => (unhexlify h).map (fun b => (b, rest))
+    | none => none
+  | _ => none
+
 /-- the identifier quote character of a provider (`quote_char`) -/
 def Dialect.quoteChar : Dialect → Char
   | .mysql => '`'
